@@ -393,3 +393,236 @@ class PeriodicReal:
             if not g.done():
                 g.cancel()
         self.env.close()
+
+
+# ------------------------------------------------------------------------------------------
+# C38: RunSync
+
+class HarnessHang(BaseException):
+    """The loop would block forever (nothing ready, nothing scheduled)."""
+
+
+class _AutoSelector:
+    """select() never reports I/O; when the loop would sleep until its next timer the virtual
+    clock jumps there instead; when it would sleep forever the run is a hang."""
+
+    def __init__(self, inner):
+        self.inner = inner
+        self.loop = None
+
+    def select(self, timeout=None):
+        if timeout is None:
+            raise HarnessHang()
+        if timeout > 0:
+            self.loop._vtime += timeout
+        return []
+
+    def __getattr__(self, name):
+        return getattr(self.inner, name)
+
+
+class AutoEnv:
+    """Virtual-time loop whose clock advances by itself while the loop waits (for blocking calls
+    such as run_sync)."""
+
+    def __init__(self, start=T0):
+        from tornado.platform.asyncio import AsyncIOLoop
+        self.loop = VLoop(start)
+        sel = _AutoSelector(self.loop._selector)
+        sel.loop = self.loop
+        self.loop._selector = sel
+        asyncio.set_event_loop(self.loop)
+        self.io_loop = AsyncIOLoop(asyncio_loop=self.loop, make_current=False)
+        self.io_loop.time = self.loop.time
+
+    def close(self):
+        try:
+            for h in list(self.loop._scheduled):
+                h.cancel()
+            self.loop._ready.clear()
+            for t in asyncio.all_tasks(self.loop):
+                t.cancel()
+            self.loop._selector = self.loop._selector.inner
+            self.loop.settle()
+            self.io_loop.close()
+        except BaseException:
+            pass
+        finally:
+            asyncio.set_event_loop(None)
+
+
+class RunSyncReal:
+    """Real IOLoop.run_sync behind the RunSync.tla action interface."""
+
+    def __init__(self, cfg, variant=0):
+        self.env = AutoEnv()
+        self.io = self.env.io_loop
+        self.loop = self.env.loop
+        self.variant = variant
+        self.tap = LogTap()
+
+    def _func(self, k, d, box):
+        from tornado import gen
+        io = self.io
+        loop = self.loop
+        use_gen_sleep = self.variant % 2 == 1
+
+        async def sleep(n):
+            if n:
+                if use_gen_sleep:
+                    await gen.sleep(n)
+                else:
+                    await asyncio.sleep(n)
+
+        if k == "none":
+            return lambda: None
+        if k == "raise":
+            def f():
+                raise ValueError("boom")
+            return f
+        if k == "value":
+            return lambda: 42
+        if k in ("coro", "cororaise"):
+            async def f():
+                try:
+                    await sleep(d)
+                except asyncio.CancelledError:
+                    box["seen"] = 1
+                    raise
+                if k == "cororaise":
+                    raise ValueError("boom")
+                return 7
+            return f
+        if k == "swallow":
+            async def f():
+                try:
+                    await sleep(d)
+                except asyncio.CancelledError:
+                    box["seen"] = 1
+                return 8
+            return f
+        if k == "gencoro":
+            @gen.coroutine
+            def f():
+                if d:
+                    yield gen.sleep(d)
+                return 7
+            return f
+        if k == "future":
+            def f():
+                fut = asyncio.Future(loop=loop)
+                io.call_later(d, lambda: fut.done() or fut.set_result(7))
+                return fut
+            return f
+        if k == "stop":
+            async def f():
+                io.stop()
+                await sleep(d)
+                return 9
+            return f
+        raise ValueError(k)
+
+    def step(self, act, args):
+        k, d, to = args[0], args[1], args[2]
+        box = {"seen": 0}
+        t0 = self.loop.time()
+        try:
+            v = self.io.run_sync(self._func(k, d, box), timeout=None if to == 999 else to)
+            out = ["ret", str(v)]
+        except HarnessHang:
+            out = ["hang", ""]
+        except Exception as e:
+            out = ["exc", type(e).__name__]
+        el = self.loop.time() - t0
+        seen = box["seen"]          # read now: cancellation must have been observed when run_sync returns
+        # A function that stopped the loop itself leaves its task pending (and run_sync's stop
+        # callback attached to it); the program cleans that up, as it would have to.  Then let
+        # whatever else the call left behind run without moving the clock.
+        if k == "stop":
+            for t in asyncio.all_tasks(self.loop):
+                t.cancel()
+        try:
+            self.loop._selector.select = lambda timeout=None: []
+            self.loop.settle()
+        finally:
+            del self.loop._selector.select
+        p = {"out": out, "elapsed": int(el) if el == int(el) else el, "seen": seen,
+             "now": int(self.loop.time() - T0) if self.loop.time() == int(self.loop.time()) else self.loop.time() - T0}
+        extra = [r.getMessage()[:80] for r in self.tap.records]
+        if extra:
+            p["unexpected_log"] = extra
+        return p
+
+    def close(self):
+        self.tap.close()
+        self.env.close()
+
+
+# ------------------------------------------------------------------------------------------
+# C38: CrossThread (real threads, real asyncio loop with its self-pipe)
+
+def cross_thread_run(args):
+    """nt threads (thread 1 = the loop thread, scheduling from inside its own callbacks) each
+    add_callback a numbered series while the loop runs.  Events get a global order from one
+    harness lock: begin(t, k) just before the add_callback call, run(t, k) inside the callback.
+    Seeded random sleeps perturb the OS schedule."""
+    import random
+    import threading
+    import time as _time
+    from tornado.platform.asyncio import AsyncIOLoop
+    tid, seed, nt, nk = args
+    rng = random.Random(seed)
+    loop = asyncio.new_event_loop()
+    io = AsyncIOLoop(asyncio_loop=loop, make_current=False)
+    lock = threading.Lock()
+    ev = []
+    nran = [0]
+    total = nt * nk
+    delays = {t: [rng.choice([0, 0, 0.00005, 0.0002, 0.001]) for _ in range(nk)] for t in range(2, nt + 1)}
+    timed_out = [False]
+
+    def log(a, t, k):
+        with lock:
+            if a == "run":
+                nran[0] += 1
+            ev.append({"a": a, "args": [t, k], "obs": {"nran": nran[0]}})
+
+    def cb(t, k, tag=None):
+        log("run", t, k)
+        if tag != (t, k):
+            raise AssertionError("kwargs not passed through")
+        if t == 1 and k < nk:
+            log("begin", 1, k + 1)
+            io.add_callback(cb, 1, k + 1, tag=(1, k + 1))
+        if nran[0] >= total:
+            io.stop()
+
+    def worker(t):
+        for k in range(1, nk + 1):
+            d = delays[t][k - 1]
+            if d:
+                _time.sleep(d)
+            log("begin", t, k)
+            io.add_callback(cb, t, k, tag=(t, k))
+
+    threads = [threading.Thread(target=worker, args=(t,), daemon=True) for t in range(2, nt + 1)]
+
+    def kick():
+        for th in threads:
+            th.start()
+        log("begin", 1, 1)
+        io.add_callback(cb, 1, 1, tag=(1, 1))
+
+    def give_up():
+        timed_out[0] = True
+        io.stop()
+    io.add_callback(kick)
+    h = io.call_later(60, give_up)      # safety net only; a lost callback shows as a missing run
+    io.start()
+    io.remove_timeout(h)
+    for th in threads:
+        th.join(5)
+    with lock:
+        ev.append({"a": "end", "args": [], "obs": {"nran": nran[0]}})
+    io.close()
+    return {"id": tid, "cfg": {"nt": nt, "nk": nk}, "ev": ev, "gave_up": timed_out[0]}
